@@ -4,7 +4,9 @@ Written from the mathematics / the documentation of the interface, not from the 
 symbolically.  `pow2`, `be`, `ipow`, `gcd`, `bitlen` ... are spec forms (vf/pyvc/contracts.py, contracts/_intcommon.py).
 """
 
-SIG = {'is_floor_quotient': 'bool', 'is_residue': 'bool', 'is_bit_size': 'bool', 'is_byte_size': 'bool', 'is_isqrt': 'bool',
+SIG = {'isqrt': {'sort': 'int', 'uf': True,        # the integer square root exists (uninterpreted; its defining property as fact)
+                 'facts': ['v >= 0 ==> (result >= 0 and result * result <= v and v < (result + 1) * (result + 1))']},
+       'is_floor_quotient': 'bool', 'is_residue': 'bool', 'is_bit_size': 'bool', 'is_byte_size': 'bool', 'is_isqrt': 'bool',
        'random_top': 'int', 'random_value': 'int', 'candidate': 'int', 'legacy_candidate': 'int', 'bits_candidate': 'int'}
 
 
@@ -32,6 +34,10 @@ def is_byte_size(v, n):
     if v == 0:
         return n == 1
     return n >= 1 and pow2(8 * (n - 1)) <= v and v < pow2(8 * n)
+
+
+def isqrt(v):
+    pass
 
 
 def is_isqrt(v, r):
@@ -99,4 +105,19 @@ def lemma_ceil_unique(a, b, c):
 
 def lemma_range_index(a, b, c):
     """b > 0, 0 <= c < (a + b - 1) // b  ==>  c*b < a  and  (c*b) % b == 0     (start + step*c is an element of the range)"""
+    return True
+
+
+def lemma_isqrt_unique(a, b, c):
+    """b and c both satisfy the defining inequalities of floor(sqrt(a))  ==>  b == c"""
+    return True
+
+
+def lemma_mul_divisible(a, b, c):
+    """c > 0, c | a  ==>  c | a*b"""
+    return True
+
+
+def lemma_div_exact(a, b):
+    """b > 0, b | a  ==>  |a // b| == |a| // b"""
     return True
